@@ -124,6 +124,8 @@ pub fn history(cfg: &Cfg, rep: &mut Report, h: u64, steps: usize, e2e: bool) {
     let mut script_mode: u32 = 0;
     // the registry as the edit history implies it: topic -> trusted issuers
     let mut mreg: BTreeMap<u32, BTreeSet<usize>> = BTreeMap::new();
+    // issuers added and not removed since (an issuer stays trusted when its last topic goes)
+    let mut trusted: BTreeSet<usize> = BTreeSet::new();
     let keys: Vec<Vec<Key>> = (0..ni).map(|_| SCHEMES.iter().map(|s| Key::new(&mut rng, *s)).collect()).collect();
     let nid = 3;
     let identities: Vec<Address> = (0..nid).map(|_| e.register(IdentityC, ())).collect();
@@ -167,6 +169,8 @@ pub fn history(cfg: &Cfg, rep: &mut Report, h: u64, steps: usize, e2e: bool) {
         let t123: SVec<u32> = SVec::from_array(e, [1u32, 2, 3]);
         invoke::<()>(e, &cti, "add_trusted_issuer", args!(e, issuers[0], t123)).unwrap();
         invoke::<()>(e, &cti, "add_trusted_issuer", args!(e, issuers[1], t12)).unwrap();
+        trusted.insert(0);
+        trusted.insert(1);
         mreg.insert(1, [0usize, 1].into_iter().collect());
         mreg.insert(2, [0usize, 1].into_iter().collect());
         mreg.insert(3, [0usize].into_iter().collect());
@@ -229,6 +233,14 @@ pub fn history(cfg: &Cfg, rep: &mut Report, h: u64, steps: usize, e2e: bool) {
             let r: Result<(), Fail> = invoke(e, &cti, f, args!(e, issuers[ri], tv.clone()));
             rep.op(format!("#{step} cti.{f}(I{ri}, {tv:?}) -> {}", tag(&r)));
             if r.is_ok() {
+                // only a currently trusted issuer can have its topics changed, only a new one can be added
+                let was = trusted.contains(&ri);
+                if f == "update_issuer_claim_topics" {
+                    rep.check("registry", was, "C15/registry/update_issuer_claim_topics/accepted-for-an-issuer-that-is-not-trusted", || format!("update_issuer_claim_topics(I{ri}, {tv:?}) succeeded although I{ri} is not (or no longer) a trusted issuer; trusted: {trusted:?}"));
+                } else {
+                    rep.check("registry", !was, "C15/registry/add_trusted_issuer/accepted-twice", || format!("add_trusted_issuer(I{ri}) succeeded although it is trusted already"));
+                }
+                trusted.insert(ri);
                 if f == "update_issuer_claim_topics" {
                     for is in mreg.values_mut() {
                         is.remove(&ri);
@@ -242,6 +254,8 @@ pub fn history(cfg: &Cfg, rep: &mut Report, h: u64, steps: usize, e2e: bool) {
             let r: Result<(), Fail> = invoke(e, &cti, "remove_trusted_issuer", args!(e, issuers[ri]));
             rep.op(format!("#{step} cti.remove_trusted_issuer(I{ri}) -> {}", tag(&r)));
             if r.is_ok() {
+                rep.check("registry", trusted.contains(&ri), "C15/registry/remove_trusted_issuer/accepted-for-an-issuer-that-is-not-trusted", || format!("remove_trusted_issuer(I{ri}) succeeded although it is not trusted; trusted: {trusted:?}"));
+                trusted.remove(&ri);
                 for is in mreg.values_mut() {
                     is.remove(&ri);
                 }
